@@ -70,3 +70,64 @@ def build_or_none(spec):
         return None, 'illtyped'
     except Exception as e:
         return None, f'build:{exc_signature(e)}'
+
+
+def run_cases(ck, fams, worker, label='EQ', K=2, chunk=150):
+    """drive worker(chunk)->[(spec, (status, sig, what, rep), secs)] over families; tally into the Check"""
+    import time
+    from vf import par
+    stats = {}
+    total = 0
+    nontrivial = set()
+    for fname, specs in fams.items():
+        t0 = time.time()
+        results = [x for c in par.pmap_chunks(worker, specs, chunk) for x in c]
+        st = {}
+        for spec, (status, sig, what, rep), secs in results:
+            st[status] = st.get(status, 0) + 1
+            total += 1
+            if status == 'ok':
+                ck.obligation(True)
+                ck.query('unsat', rep or 0.0)
+                nontrivial.add(spec)
+            elif status == 'identity':
+                ck.obligation(True)  # output structurally equal to the input: nothing to decide
+            elif status == 'vacuous':
+                ck.obligation(True)
+                ck.query('unsat', rep or 0.0)
+            elif status == 'finding':
+                ck.obligation(False)
+                if sig.startswith('not-equivalent'):
+                    ck.query('sat')
+                ck.counterexample(sig, what, rep)
+            elif status == 'unknown':
+                ck.obligation(None)
+                ck.query('unknown')
+                ck.undecided(what)
+        st['wall_s'] = round(time.time() - t0, 1)
+        stats[fname] = st
+        if specs:
+            ck.sample({'family': fname, 'tree': gen.render(specs[len(specs) // 2])})
+    ck.engine(label, families=stats, trees=total, array_slots_K=K)
+    return total, len(nontrivial)
+
+
+def make_worker(case):
+    import time
+    from vf.common import short
+
+    def worker(chunk):
+        out = []
+        for spec in chunk:
+            t = time.time()
+            try:
+                res = case(spec)
+            except Exception as e:  # harness trouble: inconclusive, never a verdict
+                res = ('unknown', None, f'harness exception on {spec}: {type(e).__name__}: {short(e, 150)}', None)
+            out.append((spec, res, time.time() - t))
+        return out
+    return worker
+
+
+def tuplify(x):
+    return tuple(tuplify(i) for i in x) if isinstance(x, (list, tuple)) else x
